@@ -20,9 +20,16 @@ type vfC18Case struct {
 	PauseMs int        `json:"pause_ms"`
 	Cycles  int        `json:"cycles"`
 	Via     string     `json:"via"` // api | ui
+	// LatencyMs: from eight messages before the pause begins until 1.5 s after it ended both directions of the connection deliver
+	// this much later (a slow path): the peer has then typically been waiting for a good part of a round trip when the pause
+	// begins, and what it waits for arrives pause + latency later still - it only survives if the keep-alive lines really extend
+	// its deadline. In the phases that have no keep-alives (the tail of a file: final ack, MD5) the peer sees pause + latency of
+	// silence, so success is demanded only while pause + latency stays 400 ms under the timeout.
+	LatencyMs int `json:"latency_ms,omitempty"`
 }
 
 type vfC18Res struct {
+	covered bool
 	fired   bool
 	outcome string
 	paused  int
@@ -57,6 +64,13 @@ func vfC18Run(cs vfC18Case, res *vfC18Res) string {
 					return
 				}
 				var from time.Time
+				if cs.LatencyMs > 0 {
+					defer func() {
+						time.Sleep(1500 * time.Millisecond)
+						sess.c2s.setLatency(0)
+						sess.s2c.setLatency(0)
+					}()
+				}
 				if cs.Via == "api" {
 					t.pauseTransferringFiles()
 					from = time.Now()
@@ -94,6 +108,21 @@ func vfC18Run(cs vfC18Case, res *vfC18Res) string {
 		}()
 	}
 	tk := vfArm(sess, sc.Cfg.Upload, cs.Ev, fire)
+	if cs.LatencyMs > 0 {
+		var slow sync.Once
+		for _, lk := range []*vfLink{sess.c2s, sess.s2c} {
+			inner := lk.onMsg
+			lk.onMsg = func(m vfMsg, before bool) {
+				if m.Dir == cs.Ev.Dir && m.Idx >= cs.Ev.K-8 {
+					slow.Do(func() {
+						sess.c2s.setLatency(time.Duration(cs.LatencyMs) * time.Millisecond)
+						sess.s2c.setLatency(time.Duration(cs.LatencyMs) * time.Millisecond)
+					})
+				}
+				inner(m, before)
+			}
+		}
+	}
 	run, err := vfStartTransfer(sess, sc.Cfg, e.paths, e.dest)
 	if err != nil {
 		return "cannot start: " + err.Error()
@@ -131,8 +160,52 @@ func vfC18Run(cs vfC18Case, res *vfC18Res) string {
 	} else {
 		res.outcome = "error"
 	}
-	if pause <= T-time.Second && !(serverOK && clientOK) {
-		return fmt.Sprintf("a pause of %v (< timeout %v) x%d at %+v made the transfer fail: %s", pause, T, cs.Cycles, cs.Ev, run.describe())
+	// Was the whole pause spent in a phase that has keep-alives? Then the paused client wrote "=" lines throughout and the first
+	// real line after them is file data or an ack again: the peer's deadline is extended by every one of them, whatever the
+	// latency. Otherwise (the tail of a file: final ack, MD5, names) the peer simply sees pause + latency of silence.
+	covered := false
+	if len(wins) == 1 {
+		w := wins[0]
+		keep, other := 0, 0
+		next := ""
+		for _, m := range sess.c2s.messages() {
+			ka := strings.HasPrefix(m.Txt, "#DATA:=") || strings.HasPrefix(m.Txt, "#SUCC:=")
+			switch {
+			case m.At.Before(w.from.Add(150 * time.Millisecond)):
+			case m.At.Before(w.to):
+				if ka {
+					keep++
+				} else {
+					other++
+				}
+			case !ka && next == "":
+				next = m.Typ
+			}
+		}
+		covered = keep >= int(pause/(200*time.Millisecond)) && keep >= 2 && other == 0 && (next == "DATA" || next == "BIN" || next == "SUCC")
+	}
+	res.covered = covered
+	demanded := pause+time.Duration(cs.LatencyMs)*time.Millisecond <= T-400*time.Millisecond || (covered && pause <= T-300*time.Millisecond)
+	if demanded && !(serverOK && clientOK) {
+		tl := ""
+		if len(wins) > 0 {
+			for _, lk := range []*vfLink{sess.c2s, sess.s2c} {
+				ms := lk.messages()
+				if len(ms) > 10 {
+					ms = ms[len(ms)-10:]
+				}
+				tl += " | " + lk.dir + ":"
+				for _, m := range ms {
+					tl += fmt.Sprintf(" %+dms %s", m.At.Sub(wins[0].from).Milliseconds(), strings.Map(func(r rune) rune {
+						if r < 32 || r > 126 {
+							return '.'
+						}
+						return r
+					}, vfTrunc(m.Txt, 14)))
+				}
+			}
+		}
+		return fmt.Sprintf("a pause of %v (< timeout %v) x%d at %+v made the transfer fail: %s; last messages relative to the pause begin%s", pause, T, cs.Cycles, cs.Ev, run.describe(), tl)
 	}
 	// while paused the paused side starts no file data (keep-alives take its place)
 	if sc.Cfg.Upload && sc.Cfg.Protocol >= 3 {
@@ -156,10 +229,16 @@ func vfC18Run(cs vfC18Case, res *vfC18Res) string {
 func vfC18Eval(c *vfCollector, cs vfC18Case, res *vfC18Res) {
 	cls := "pause<T-1"
 	T := cs.Scen.Cfg.Timeout * 1000
-	if cs.PauseMs > T-1000 {
+	if cs.PauseMs+cs.LatencyMs > T-400 {
 		cls = "pause_around_or_above_T"
 	}
 	labels := []string{"scenario_" + cs.Scen.Name, "via_" + cs.Via, cls, fmt.Sprintf("cycles_%d", cs.Cycles), "outcome_" + res.outcome}
+	if cs.LatencyMs > 0 {
+		labels = append(labels, "slow_link_during_pause")
+	}
+	if res.covered {
+		labels = append(labels, "pause_covered_by_keepalives")
+	}
 	if !res.fired {
 		labels = append(labels, "event_never_reached")
 	}
@@ -201,10 +280,10 @@ func TestVF_C18(t *testing.T) {
 			c.violation("dryrun", sc, msg)
 			t.Fatalf("%s", msg)
 		}
-		type prof struct{ ms, cycles int }
-		profiles := []prof{{50, 1}, {300, 1}, {300, 3}, {1800, 1}}
+		type prof struct{ ms, cycles, latency int }
+		profiles := []prof{{50, 1, 0}, {300, 1, 0}, {300, 3, 0}, {1800, 1, 0}, {sc.Cfg.Timeout*1000 - 400, 1, 600}}
 		if long {
-			profiles = append(profiles, prof{3000, 1}, prof{4500, 1}, prof{1200, 2})
+			profiles = append(profiles, prof{3000, 1, 0}, prof{4500, 1, 0}, prof{1200, 2, 0}, prof{sc.Cfg.Timeout*1000 - 400, 1, 0}, prof{1200, 2, 300}, prof{sc.Cfg.Timeout*1000 - 400, 1, 400})
 		}
 		for _, via := range []string{"api", "ui"} {
 			for _, pr := range profiles {
@@ -215,11 +294,11 @@ func TestVF_C18(t *testing.T) {
 					}
 					for k := 1; k < n; k++ {
 						for _, before := range []bool{true, false} {
-							h := vfPointHash(sc.Name, via, pr.ms, pr.cycles, dir, k, before)
+							h := vfPointHash(sc.Name, via, pr.ms, pr.cycles, dir, k, before, pr.latency)
 							if int(h%uint64(shards)) != shard || (int(h/uint64(shards)%1000003)+seed)%stride != 0 {
 								continue
 							}
-							cs := vfC18Case{Scen: sc, Ev: vfEvent{Dir: dir, K: k, Before: before}, PauseMs: pr.ms, Cycles: pr.cycles, Via: via}
+							cs := vfC18Case{Scen: sc, Ev: vfEvent{Dir: dir, K: k, Before: before}, PauseMs: pr.ms, Cycles: pr.cycles, Via: via, LatencyMs: pr.latency}
 							var res vfC18Res
 							m := vfGuard(func() string { return vfC18Run(cs, &res) })
 							if m != "" && strings.Contains(m, "still running") {
